@@ -326,10 +326,20 @@ done:
 // when it carries the hash of the valid block — in front of that block's valid successors.
 func (cx *world) offerInvalid(cu *cursor) {
 	r, c := cx.r, cx.r.C
+	if len(cx.laterChildren) > 0 {
+		// the child of an invalid block that was refused in an earlier offer arrives on its own
+		cv := cx.laterChildren[0]
+		cx.laterChildren = cx.laterChildren[1:]
+		o := &offer{kind: "blocks", label: "invalid", invalid: []string{cv.kind}, blocks: types.Blocks{cv.blk}, tags: []string{cv.name}}
+		r.Fault("offer.invalid." + cv.kind)
+		r.Probe("child of a refused invalid block offered later")
+		cx.offerBlocks(o)
+		return
+	}
 	var t *node
 	var pre, post []*node
-	known := false
-	if c.Chance("variant-of-known", 1, 4) || cu.next >= len(cu.br.own) {
+	known, ofHead := false, false
+	if c.Chance("variant-of-known", 1, 3) || cu.next >= len(cu.br.own) {
 		var ds []*node
 		for _, n := range cx.nodes[1:] {
 			if cx.sch.delivered[n] {
@@ -343,6 +353,12 @@ func (cx *world) offerInvalid(cu *cursor) {
 			return
 		}
 		t = ds[c.Intn("variant-known-which", len(ds))]
+		if hn := cx.byHash[cx.live.im.Chain.CurrentBlock().Hash()]; hn != nil && hn != cx.nodes[0] && c.Chance("variant-of-head", 1, 2) {
+			// a competitor of the current head: what is built on it would extend the chain
+			t = hn
+			ofHead = true
+			r.Probe("invalid variant of the current head")
+		}
 		known = true
 	} else {
 		j := c.Weighted("variant-ahead", []int{4, 2, 1})
@@ -355,6 +371,10 @@ func (cx *world) offerInvalid(cu *cursor) {
 	var v *variant
 	for try := 0; try < 4 && v == nil; try++ {
 		kind := variantKinds[c.Intn("variant-kind", len(variantKinds))]
+		if ofHead && c.Chance("variant-of-head-late-failure", 2, 3) {
+			// a competitor of the head that only the post-execution validation refuses
+			kind = []string{"gas-used", "receipt-root", "bloom"}[c.Intn("late-failure-kind", 3)]
+		}
 		v, _ = cx.makeVariant(t, kind)
 	}
 	if v == nil {
@@ -389,8 +409,24 @@ func (cx *world) offerInvalid(cu *cursor) {
 		o.blocks = append(o.blocks, n.blk)
 		o.tags = append(o.tags, "")
 	}
+	if !v.sameHash && (ofHead || c.Chance("variant-with-child-on-it", 1, 2)) {
+		if cv, ok := cx.childOnVariant(v); ok {
+			if ofHead || c.Chance("variant-child-later", 1, 2) {
+				cx.laterChildren = append(cx.laterChildren, cv)
+			} else {
+				o.blocks = append(o.blocks, cv.blk)
+				o.tags = append(o.tags, cv.name)
+				o.invalid = append(o.invalid, cv.kind)
+				r.Probe("child of an invalid block offered with it")
+			}
+		}
+	}
 	r.Fault("offer.invalid." + v.kind)
 	cx.offerBlocks(o)
+	if len(cx.laterChildren) > 0 && (ofHead || c.Chance("variant-child-right-after", 1, 2)) {
+		// the child follows at once (while the refused variant is still a competitor of the head)
+		cx.offerInvalid(cu)
+	}
 }
 
 func (cx *world) offerTick() {
@@ -524,6 +560,12 @@ func (cx *world) offerBlocks(o *offer) {
 		}
 	}
 	if !c.Chance("crash-enum", num, den) {
+		return
+	}
+	if len(cx.laterChildren) > 0 {
+		// the enumeration imports one further valid block on the live node (the reference), which
+		// would move the head before the child of this offer's refused block arrives
+		r.Logf("  enumeration skipped: the child of this offer's invalid block follows")
 		return
 	}
 	if o.kind == "tick" && cx.queueUnsure {
